@@ -53,6 +53,19 @@ theorem lossless_scan_any_history {σ} (clk : Clock τ σ) (fuel : Nat) (m : Mon
     (hm : m.retro = true) : Lossless tock (doRun clk fuel m c tock n xs).1 :=
   doRun_lossless clk fuel m c tock n xs hm
 
+/-- a run does not depend on what the timer went through before — earlier runs of the same scheduler, finished, interrupted
+by Ctrl-C or failed, peeks, clock steps: `timer.start(duration=self.tock)` at the first reading of the run forgets it all.
+(So the second run of a re-used Doist is the run of a fresh one; the driver models it that way.) -/
+theorem doRun_forgets_timer_history {σ} (clk : Clock τ σ) (fuel : Nat) (m m' : Mono τ) (c : σ) (tock : τ) (n : Nat) (xs : List Nat)
+    (h : m.retro = m'.retro) : doRun clk fuel m c tock n xs = doRun clk fuel m' c tock n xs := by
+  unfold doRun
+  cases clk.read c with
+  | none => rfl
+  | some p =>
+    have e : m.startNow (some tock) p.1 = m'.startNow (some tock) p.1 := by
+      simp only [Mono.startNow, Mono.startAt, durOr, h]
+    simp only [e]
+
 /-- the tock the run is paced with is the tock the scheduler has when `do()` is called: the last value assigned to
 `doist.tock` after construction, else the constructor argument, else `Tymist.Tock` -/
 theorem run_tock_is_tock_at_start {σ} (dflt : τ) (clk : Clock τ σ) (fuel : Nat) (c : σ) (tock0 : Option τ) (pre : List (PreOp τ)) (n : Nat)
